@@ -230,6 +230,30 @@ func ExecuteC05(t *testing.T, plan *Plan) *RunResult {
 			goto done
 		}
 	}
+	// (a2) the SAME in-memory chart rendered again and again (an SDK user keeps the loaded chart): same output, and the
+	// chart's own defaults are not written to by rendering
+	{
+		shared := BuildChart(&spec)
+		// (the first operation on a loaded chart processes its dependencies, which by design rewrites the chart's values
+		// once; what is compared is the chart after that against the chart after all further renders)
+		renderOnce(&spec, map[string]interface{}{}, rs, shared)
+		nRenders++
+		beforeVals, _ := json.Marshal(shared.Values)
+		for _, v := range []map[string]interface{}{vals, {}, {}} {
+			first := renderOnce(&spec, v, rs, shared)
+			second := renderOnce(&spec, v, rs, shared)
+			nRenders += 2
+			res.Checks++
+			if first.key() != second.key() {
+				violate("identical-output", "same-chart-object-rendered-twice", fmt.Sprintf("two renders of one loaded chart object differ: %q vs %q", trunc(first.Manifest+first.Err, 300), trunc(second.Manifest+second.Err, 300)))
+				goto done
+			}
+		}
+		if afterVals, _ := json.Marshal(shared.Values); string(afterVals) != string(beforeVals) {
+			violate("inputs-unmodified", "chart-defaults-written-by-render", fmt.Sprintf("rendering changed the chart's default values: %s -> %s", trunc(string(beforeVals), 200), trunc(string(afterVals), 200)))
+			goto done
+		}
+	}
 	// (c) permuted order of templates, files and dependencies
 	for _, seed := range rs.Permute {
 		ch := BuildChart(&spec)
@@ -649,6 +673,7 @@ func genC05(seed, index uint64, tier string) *Plan {
 		rs.Mutates = true
 		cs.RawFiles["templates/a-reader.yaml"] = "apiVersion: v1\nkind: ConfigMap\nmetadata:\n  name: c05-reader-a\ndata:\n  seen: {{ .Values.computed | default \"unset\" | quote }}\n"
 		cs.RawFiles["templates/m-writer.yaml"] = "{{- $_ := set .Values \"computed\" \"derived\" }}\napiVersion: v1\nkind: ConfigMap\nmetadata:\n  name: c05-writer\ndata:\n  wrote: \"yes\"\n"
+		cs.RawFiles["templates/n-nested-writer.yaml"] = "{{- $_ := set .Values.nested \"touched\" \"yes\" }}{{- $_ := set .Values.nested.z \"a\" (append .Values.nested.z.a \"more\") }}\napiVersion: v1\nkind: ConfigMap\nmetadata:\n  name: c05-nested-writer\ndata:\n  n: {{ len .Values.nested.z.a | quote }}\n"
 		cs.RawFiles["templates/z-reader.yaml"] = "apiVersion: v1\nkind: ConfigMap\nmetadata:\n  name: c05-reader-z\ndata:\n  seen: {{ .Values.computed | default \"unset\" | quote }}\n"
 		cs.RawFiles["templates/sub/q-reader.yaml"] = "apiVersion: v1\nkind: ConfigMap\nmetadata:\n  name: c05-reader-q\ndata:\n  seen: {{ .Values.computed | default \"unset\" | quote }}\n"
 	}
